@@ -6,6 +6,9 @@ import CifModel.Spec.Names
 namespace CifModel.Lemmas.Names
 open CifModel CifModel.Model CifModel.Spec
 
+/-- `omega` after unfolding the abbreviation `CU := Nat` in the hypotheses -/
+macro "omega_n" : tactic => `(tactic| ((try simp only [CU] at *); omega))
+
 theorem decode_bmp : ∀ (s : List Nat), noSurrogates s → decode s = s.map some := by
   intro s
   induction s with
@@ -65,5 +68,252 @@ theorem unit_ok (c : Nat) (hc : c < 0xd800 ∨ (0xe000 ≤ c ∧ c < 0x10000)) :
     · by_cases h : c ≤ 64975
       · left; exact h
       · right; omega
+
+
+/-! ### surrogate pairs: the masks of `cif_has_disallowed_chars` against code-point arithmetic -/
+
+theorem and3fe_tab : (List.range 1024).all (fun k => ((56320 + k) &&& 1022 == 1022) == decide (1022 ≤ k)) = true := by
+  decide +kernel
+theorem and3f_tab : (List.range 1024).all (fun k => ((55296 + k) &&& 63 == 63) == decide (k % 64 = 63)) = true := by
+  decide +kernel
+
+theorem and3fe (k : Nat) (h : k < 1024) : ((56320 + k) &&& 1022 = 1022) ↔ 1022 ≤ k := by
+  have := List.all_eq_true.mp and3fe_tab k (List.mem_range.mpr h)
+  simp only [beq_iff_eq] at this
+  by_cases h2 : 1022 ≤ k <;> simp_all
+
+theorem and3f (k : Nat) (h : k < 1024) : ((55296 + k) &&& 63 = 63) ↔ k % 64 = 63 := by
+  have := List.all_eq_true.mp and3f_tab k (List.mem_range.mpr h)
+  simp only [beq_iff_eq] at this
+  by_cases h2 : k % 64 = 63 <;> simp_all
+
+/-- the pair `(c, d)` encodes a non-character U+xFFFE / U+xFFFF exactly when the C's mask test fires -/
+theorem pair_nonchar (c d : Nat) (hc : 55296 ≤ c ∧ c ≤ 56319) (hd : 56320 ≤ d ∧ d ≤ 57343) :
+    (d &&& 0x3fe = 0x3fe ∧ c &&& 0x3f = 0x3f) ↔ ¬ ((0x10000 + (c - 0xd800) * 1024 + (d - 0xdc00)) % 0x10000 < 0xfffe) := by
+  obtain ⟨k1, rfl⟩ : ∃ k, c = 55296 + k := ⟨c - 55296, by omega⟩
+  obtain ⟨k2, rfl⟩ : ∃ k, d = 56320 + k := ⟨d - 56320, by omega⟩
+  have h1 : k1 < 1024 := by omega
+  have h2 : k2 < 1024 := by omega
+  have e1 := and3f k1 h1
+  have e2 := and3fe k2 h2
+  rw [e1, e2]
+  omega
+
+/-- a supplementary code point is a name character unless it is a non-character -/
+theorem nameChar_supp (cp : Nat) (h : 0x10000 ≤ cp) : nameChar cp ↔ cp % 0x10000 < 0xfffe := by
+  unfold nameChar; constructor
+  · intro h'; exact h'.2.2.2
+  · intro h'; exact ⟨by omega, by omega, by omega, h'⟩
+
+/-- all decoded characters are name characters -/
+def charsOk (l : List (Option Nat)) : Prop := ∀ x ∈ l, ∃ cp, x = some cp ∧ nameChar cp
+
+theorem charsOk_cons_some (cp : Nat) (l : List (Option Nat)) : charsOk (some cp :: l) ↔ nameChar cp ∧ charsOk l := by
+  unfold charsOk; constructor
+  · intro h
+    refine ⟨?_, fun x hx => h x (List.mem_cons_of_mem _ hx)⟩
+    obtain ⟨cp', e, hn⟩ := h (some cp) (by simp); cases e; exact hn
+  · rintro ⟨h1, h2⟩ x hx
+    rcases List.mem_cons.mp hx with rfl | hx
+    · exact ⟨cp, rfl, h1⟩
+    · exact h2 x hx
+
+theorem charsOk_cons_none (l : List (Option Nat)) : ¬ charsOk (none :: l) := by
+  intro h; obtain ⟨cp, e, _⟩ := h none (by simp); cases e
+
+theorem hasWhitespace_cons (c : Nat) (r : List Nat) : hasWhitespace (c :: r) = (decide (c ≤ 0x20) || hasWhitespace r) := by
+  simp [hasWhitespace]
+
+/-- the whole scan: code-point count, and "no whitespace, nothing disallowed" = "every character is a name character",
+    for every string of 16-bit units -/
+theorem scan_spec : ∀ (s : List Nat), (∀ c ∈ s, c < 0x10000) →
+    countChar32 s = (decode s).length ∧ ((hasWhitespace s = false ∧ hasDisallowed s = false) ↔ charsOk (decode s)) := by
+  intro s
+  induction s using decode.induct with
+  | case1 => intro _; exact ⟨rfl, by simp [hasWhitespace, hasDisallowed, decode, charsOk]⟩
+  | case2 c hc =>
+    intro _
+    have h1 : ¬ (c < 0xd800 ∨ c > 0xdfff) := by omega_n
+    have h2 : ¬ (c ≥ 0xdc00) := by omega_n
+    refine ⟨by simp [countChar32, decode, hc], ?_⟩
+    have hd : hasDisallowed [c] = true := by unfold hasDisallowed; simp only [h1, h2, if_false]
+    have hdec : decode [c] = [none] := by unfold decode; simp only [hc, and_self, if_true]
+    rw [hd, hdec]
+    exact ⟨fun h => (by cases h.2), fun h => absurd h (charsOk_cons_none _)⟩
+  | case3 c hc d rest' hd ih =>
+    intro hs
+    obtain ⟨i1, i2⟩ := ih (fun x hx => hs x (List.mem_cons_of_mem _ (List.mem_cons_of_mem _ hx)))
+    have h1 : ¬ (c < 0xd800 ∨ c > 0xdfff) := by omega_n
+    have h2 : ¬ (c ≥ 0xdc00) := by omega_n
+    have h3 : ¬ (d < 0xdc00 ∨ d > 0xdfff) := by omega_n
+    have hdec : decode (c :: d :: rest') = some (0x10000 + (c - 0xd800) * 1024 + (d - 0xdc00)) :: decode rest' := by
+      rw [decode]; simp only [hc, hd, and_self, if_true]
+    have hcnt : countChar32 (c :: d :: rest') = 1 + countChar32 rest' := by
+      rw [countChar32]; simp only [hc, hd, and_self, if_true]
+    have hdis : hasDisallowed (c :: d :: rest') =
+        if d &&& 0x3fe = 0x3fe ∧ c &&& 0x3f = 0x3f then true else hasDisallowed rest' := by
+      rw [hasDisallowed]; simp only [h1, h2, h3, if_false]
+    have hws : hasWhitespace (c :: d :: rest') = hasWhitespace rest' := by
+      rw [hasWhitespace_cons, hasWhitespace_cons]
+      have : decide (c ≤ 0x20) = false := by simp; omega_n
+      have : decide (d ≤ 0x20) = false := by simp; omega_n
+      simp [*]
+    refine ⟨by rw [hcnt, hdec, i1]; simp; omega_n, ?_⟩
+    rw [hdec, charsOk_cons_some, nameChar_supp _ (by omega_n), hws, hdis, ← i2]
+    have hp := pair_nonchar c d hc hd
+    by_cases hm : d &&& 0x3fe = 0x3fe ∧ c &&& 0x3f = 0x3f
+    · have := hp.1 hm
+      simp only [hm, and_self, if_true]
+      exact ⟨fun h => (by cases h.2), fun h => absurd h.1 this⟩
+    · have : (0x10000 + (c - 0xd800) * 1024 + (d - 0xdc00)) % 0x10000 < 0xfffe := by
+        apply Classical.byContradiction; intro h; exact hm (hp.2 h)
+      simp only [hm, if_false]
+      exact ⟨fun h => ⟨this, h⟩, fun h => h.2⟩
+  | case4 c hc d rest' hd ih =>
+    intro hs
+    obtain ⟨i1, _⟩ := ih (fun x hx => hs x (List.mem_cons_of_mem _ hx))
+    have h1 : ¬ (c < 0xd800 ∨ c > 0xdfff) := by omega_n
+    have h2 : ¬ (c ≥ 0xdc00) := by omega_n
+    have h3 : d < 0xdc00 ∨ d > 0xdfff := by omega_n
+    have hdec : decode (c :: d :: rest') = none :: decode (d :: rest') := by
+      rw [decode]; simp only [hc, hd, and_self, if_true, if_false]
+    have hcnt : countChar32 (c :: d :: rest') = 1 + countChar32 (d :: rest') := by
+      rw [countChar32]; simp only [hc, hd, and_self, if_true, if_false]
+    have hdis : hasDisallowed (c :: d :: rest') = true := by
+      rw [hasDisallowed]; simp only [h1, h2, h3, if_false, if_true]
+    refine ⟨by rw [hcnt, hdec, i1]; simp; omega_n, ?_⟩
+    rw [hdec, hdis]
+    exact ⟨fun h => (by cases h.2), fun h => absurd h (charsOk_cons_none _)⟩
+  | case5 c rest hc hd ih =>
+    intro hs
+    obtain ⟨i1, _⟩ := ih (fun x hx => hs x (List.mem_cons_of_mem _ hx))
+    have h1 : ¬ (c < 0xd800 ∨ c > 0xdfff) := by omega_n
+    have h2 : c ≥ 0xdc00 := by omega_n
+    have hdec : decode (c :: rest) = none :: decode rest := by
+      rw [decode.eq_def]; simp only [hc, hd, and_self, if_true, if_false]
+    have hcnt : countChar32 (c :: rest) = 1 + countChar32 rest := by
+      rw [countChar32.eq_def]; simp only [hc, if_false]
+    have hdis : hasDisallowed (c :: rest) = true := by
+      rw [hasDisallowed.eq_def]; simp only [h1, h2, if_false, if_true]
+    refine ⟨by rw [hcnt, hdec, i1]; simp; omega_n, ?_⟩
+    rw [hdec, hdis]
+    exact ⟨fun h => (by cases h.2), fun h => absurd h (charsOk_cons_none _)⟩
+  | case6 c rest hc hd ih =>
+    intro hs
+    obtain ⟨i1, i2⟩ := ih (fun x hx => hs x (List.mem_cons_of_mem _ hx))
+    have hlt : c < 0x10000 := hs c (by simp)
+    have h1 : c < 0xd800 ∨ c > 0xdfff := by omega_n
+    have hdec : decode (c :: rest) = some c :: decode rest := by
+      rw [decode.eq_def]; simp only [hc, hd, if_false]
+    have hcnt : countChar32 (c :: rest) = 1 + countChar32 rest := by
+      rw [countChar32.eq_def]; simp only [hc, if_false]
+    have hdis : hasDisallowed (c :: rest) = if bmpDisallowed c = true then true else hasDisallowed rest := by
+      rw [hasDisallowed.eq_def]; simp only [h1, if_true]
+    refine ⟨by rw [hcnt, hdec, i1]; simp; omega_n, ?_⟩
+    rw [hdec, charsOk_cons_some, hasWhitespace_cons, hdis, ← i2, ← unit_ok c (by omega_n)]
+    cases hb : bmpDisallowed c <;> cases hw : decide (c ≤ 0x20) <;> simp
+
+theorem decode_eq_nil (s : List Nat) : decode s = [] ↔ s = [] := by
+  cases s with
+  | nil => simp [decode]
+  | cons c r =>
+    simp only [reduceCtorEq, iff_false]
+    unfold decode
+    split
+    · cases r with
+      | nil => simp
+      | cons d r' => simp only []; split <;> simp
+    · split <;> simp
+
+
+theorem decode_len_pos (c : Nat) (r : List Nat) : 1 ≤ (decode (c :: r)).length := by
+  have : decode (c :: r) ≠ [] := fun h => by have := (decode_eq_nil (c :: r)).1 h; cases this
+  cases h : decode (c :: r) with
+  | nil => exact absurd h this
+  | cons a b => simp
+
+/-- the head of the decoding is `_` exactly when the first unit is -/
+theorem decode_head (a : Nat) (r : List Nat) : (decode (a :: r)).head? = some (some 95) ↔ a = 95 := by
+  rw [decode.eq_def]
+  simp only []
+  by_cases h1 : 55296 ≤ a ∧ a ≤ 56319
+  · simp only [h1, and_self, if_true]
+    cases r with
+    | nil => simp; omega
+    | cons d r' =>
+      simp only []
+      split
+      · simp; omega
+      · simp; omega
+  · by_cases h2 : 56320 ≤ a ∧ a ≤ 57343
+    · simp only [h1, h2, and_self, if_false, if_true]; simp; omega
+    · simp only [h1, h2, if_false]; simp
+
+theorem start_spec (forItem : Bool) (s : List Nat) : startOk forItem s = true ↔
+    (if forItem then (decode s).head? = some (some 95) ∧ 2 ≤ (decode s).length else 1 ≤ (decode s).length) := by
+  cases forItem
+  · cases s with
+    | nil => simp [startOk, decode]
+    | cons c r => have := decode_len_pos c r; simp [startOk]; omega
+  · rcases s with _ | ⟨a, _ | ⟨b, r⟩⟩
+    · simp [startOk, decode]
+    · have hlen : (decode [a]).length = 1 := by
+        rw [decode.eq_def]; simp only []; split
+        · rfl
+        · split <;> rfl
+      simp [startOk, hlen]
+    · simp only [startOk, if_true, beq_iff_eq]
+      rw [decode_head]
+      constructor
+      · rintro rfl
+        refine ⟨rfl, ?_⟩
+        have : decode (95 :: b :: r) = some 95 :: decode (b :: r) := by
+          rw [decode.eq_def]; simp
+        rw [this]; have := decode_len_pos b r; simp; omega
+      · exact fun h => h.1
+
+
+/-! ### the overwrite-in-place branch of `cif_map_set_item` -/
+
+section overwrite
+variable {α : Type} (k key : Str) (v : α)
+
+theorem find_overwrite : ∀ (l : Entries α), (Entries.find l k).isSome = true →
+    Entries.find (l.map fun e => if e.1 == k then (k, key, v) else e) k = some (k, key, v) := by
+  intro l
+  induction l with
+  | nil => intro h; simp [Entries.find] at h
+  | cons x xs ih =>
+    intro h
+    by_cases hx : (x.1 == k) = true
+    · simp only [Entries.find, List.map_cons, hx, if_true, List.find?_cons]
+      simp
+    · have hx' : (x.1 == k) = false := by simpa using hx
+      have h' : (Entries.find xs k).isSome = true := by simpa [Entries.find, List.find?_cons, hx'] using h
+      have := ih h'
+      simp only [Entries.find] at this ⊢
+      simp only [List.map_cons, hx', Bool.false_eq_true, if_false, List.find?_cons]
+      exact this
+
+theorem find_other (k2 : Str) (hne : k2 ≠ k) : ∀ (l : Entries α),
+    Entries.find (l.map fun e => if e.1 == k then (k, key, v) else e) k2 = Entries.find l k2 := by
+  intro l
+  induction l with
+  | nil => rfl
+  | cons x xs ih =>
+    simp only [Entries.find] at ih ⊢
+    by_cases hx : (x.1 == k) = true
+    · have e1 : x.1 = k := by simpa using hx
+      have hk2 : (k == k2) = false := by simpa using fun e => hne e.symm
+      have hk3 : (x.1 == k2) = false := by rw [e1]; exact hk2
+      simp only [List.map_cons, hx, if_true, List.find?_cons, hk2, hk3]
+      exact ih
+    · have hx' : (x.1 == k) = false := by simpa using hx
+      simp only [List.map_cons, hx', Bool.false_eq_true, if_false, List.find?_cons]
+      cases (x.1 == k2) with
+      | true => rfl
+      | false => exact ih
+
+end overwrite
 
 end CifModel.Lemmas.Names
